@@ -20,7 +20,7 @@ import zlib
 from wsproto import ConnectionType, WSConnection
 from wsproto import events as wsev
 from wsproto.extensions import PerMessageDeflate
-from wsproto.frame_protocol import Opcode
+from wsproto.frame_protocol import CloseReason, Opcode
 
 from simkit import world as W
 from simkit.net import ConnectPlan
@@ -170,16 +170,17 @@ def split_http(log):
 def apply_edit(kind: str, content: bytes, e: dict) -> bytes:
     k = e["k"]
     if kind == "text":
-        s = content.decode("utf-8")
+        # (surrogateescape: if mitmproxy handed us a text message that is not UTF-8 we keep its bytes as they are)
+        s = content.decode("utf-8", "surrogateescape")
         if k == "swapcase":              # ASCII only: keeps every byte position
-            return "".join(ch.swapcase() if ch.isascii() else ch for ch in s).encode()
+            return "".join(ch.swapcase() if ch.isascii() else ch for ch in s).encode("utf-8", "surrogateescape")
         if k == "rotate":                # same characters, same total byte length, shifted char boundaries
             n = e.get("n", 1) % len(s) if s else 0
-            return (s[n:] + s[:n]).encode()
+            return (s[n:] + s[:n]).encode("utf-8", "surrogateescape")
         if k == "append":
-            return (s + e.get("v", "+é世\U0001f600")).encode()
+            return (s + e.get("v", "+é世\U0001f600")).encode("utf-8", "surrogateescape")
         if k == "truncate":
-            return s[: len(s) // 2].encode()
+            return s[: len(s) // 2].encode("utf-8", "surrogateescape")
         if k == "empty":
             return b""
         if k == "replace":
@@ -358,7 +359,8 @@ def run(sc, *, keep_log=False) -> Obs:
                             pl = B(op.get("ping_data", "mid"))
                             wire += bytes(proto.ping(pl))
                             obs.sent[who].append({"what": "ping", "data": pl, "t0": loop.time(), "t1": None})
-                    rec = {"what": "msg", "kind": kind, "data": data, "lens": lens, "t0": loop.time(), "t1": None}
+                    rec = {"what": "msg", "kind": kind, "data": data, "lens": lens, "t0": loop.time(), "t1": None,
+                           "ping_inside": ping_after is not None and ping_after < len(lens) - 1}
                     obs.sent[who].append(rec)
                     obs.ev("send", who, "msg", kind, len(data), tuple(lens))
                     await conn.send(wire, cuts=op.get("cuts", ()), gaps=op.get("seg_gaps", ()))
@@ -377,7 +379,8 @@ def run(sc, *, keep_log=False) -> Obs:
                 elif what == "close":
                     code = op.get("code")
                     reason = B(op.get("reason", "")).decode("utf-8") if op.get("reason") else None
-                    wire = ws.connection.send(wsev.CloseConnection(code=code if code is not None else 1005,
+                    # (wsproto recognises "no status" only by enum identity)
+                    wire = ws.connection.send(wsev.CloseConnection(code=code if code is not None else CloseReason.NO_STATUS_RCVD,
                                                                    reason=reason if code is not None else None))
                     obs.closers.append((loop.time(), who, "close", code, (reason or "") if code is not None else ""))
                     obs.sent[who].append({"what": "close", "code": code, "reason": (reason or "").encode(),
@@ -483,8 +486,10 @@ def run(sc, *, keep_log=False) -> Obs:
                     if peer_ws.connection.state.name in ("OPEN", "LOCAL_CLOSING"):
                         peer_ws.receive_data(d)
                         for e in peer_ws.events():
-                            if isinstance(e, wsev.CloseConnection) and e.code in (1002, 1007, 1009):
-                                obs.peer_errors.append((who, f"wsproto close {e.code}"))
+                            # a Close event that is not a Close frame on the wire = wsproto's own parse failure
+                            if isinstance(e, wsev.CloseConnection) and not any(
+                                    it[0] == "close" and (it[1] if it[1] is not None else 1005) == int(e.code) for it in fr.items):
+                                obs.peer_errors.append((who, f"wsproto parse failure {int(e.code)}: {e.reason}"))
             except Exception as e:  # RemoteProtocolError etc.
                 obs.peer_errors.append((who, f"{type(e).__name__}: {e}"))
         obs.pending_hooks = [sp[1] for sp in w.hook_spans if sp[3] is None]
